@@ -50,6 +50,14 @@ class Inapplicable(Exception):
     """the generated step does not make sense in the current dynamic state (skipped, counted)"""
 
 
+class Destroyed(Inapplicable):
+    """the step addresses a destroyed subsystem"""
+
+    def __init__(self, name):
+        super().__init__(f"{name} destroyed")
+        self.name = name
+
+
 class TooBig(Exception):
     """the joint dimension outgrew what the harness can reconstruct: the program ends, inconclusive"""
 
@@ -180,8 +188,10 @@ class Machine:
 
     def require_live(self, names):
         for n in names:
-            if n not in self.w.obj or not self.live(n):
-                raise Inapplicable(f"{n} destroyed")
+            if n not in self.w.obj:
+                raise Inapplicable(f"{n} unknown")
+            if not self.live(n):
+                raise Destroyed(n)
 
     def entry_obj(self, entry: str, targets: List[str]):
         w = self.w
@@ -1245,10 +1255,11 @@ def _do_invalid(self, st):
         post = self.snap()
     except Malformed as m:
         raise Tagged(["C17"], "graph-broken-by-rejected-call", f"after the invalid request '{fault}' via {entry} on {targets}: {m.reason}", dict(site, what=m.what))
+    tags = ["C17", "C05"] if fault == "use_destroyed" else ["C17"]
     if not rejected:
-        raise Tagged(["C17"], "not-rejected", f"invalid request '{fault}' via {entry} on {targets} (storage {site.get('storage')}/{site.get('rep')}) was accepted (returned {type(ret).__name__})", dict(site, what="accepted"))
+        raise Tagged(tags, "not-rejected", f"invalid request '{fault}' via {entry} on {targets} (storage {site.get('storage')}/{site.get('rep')}) was accepted (returned {type(ret).__name__})", dict(site, what="accepted"))
     site.pop("sig", None)
-    self.unchanged(pre, post, ["C17"], site)
+    self.unchanged(pre, post, tags, site)
     self.labels.append(f"invalid:{fault}:{site.get('entry')}/{site.get('storage')}/{site.get('rep')}")
     self.nontrivial = self.nontrivial or (site.get("storage") in ("env", "ps") or site.get("rep") in ("vector", "matrix"))
     return dict(outcome="rejected-ok", pre=pre, post=post, site=site)
